@@ -148,9 +148,12 @@ func (srv *Srv) flush(req *SrvReq) {
 	_ = PackRflush(req.Rc)
 	conn.Lock()
 	r := conn.reqs[tag]
+	queued := false
 	if r != nil {
 		req.flushnext = r.flushreq
 		r.flushreq = req
+		/* still waiting for older requests with the same tag to finish? */
+		queued = r.next != nil
 	}
 	conn.Unlock()
 
@@ -171,7 +174,14 @@ func (srv *Srv) flush(req *SrvReq) {
 
 	verifPoint("flush_act", conn, req)
 	if (status & (reqWork | reqSaved)) == 0 {
-		r.Respond()
+		/*
+		 * a request queued behind older ones is answered (without a
+		 * reply) when its turn comes: taking it out of the queue now
+		 * would cut the older requests off the tag
+		 */
+		if !queued {
+			r.Respond()
+		}
 	} else {
 		if op, ok := (srv.ops).(FlushOp); ok {
 			op.Flush(r)
